@@ -201,8 +201,10 @@ func c12Settle(buf []byte, d time.Duration) bool {
 // one scripted process
 type c12Proc struct {
 	id        int
-	kind      string // locker | remover
+	kind      string // locker | remover | remlocker | expired
 	excl      bool
+	age       time.Duration          // expired: age of the lock file
+	aged      *repository.VerifC12Lock // expired: the handle of the aged lock
 	refreshes int
 	end       string // unlock | crash
 	done      chan struct{}
@@ -216,23 +218,42 @@ func c12RunProc(ctl *c12Ctl, p *c12Proc, repo *repository.Repository) {
 	mk := func(what string, more ...string) {
 		ctl.rec(append([]string{"mk", ctl.ms(), Itoa(p.id), what}, more...)...)
 	}
-	if p.kind == "remover" {
+	if p.kind == "remover" || p.kind == "remlocker" {
 		mk("remover-start")
 		n, err := repository.RemoveStaleLocks(ctx, repo)
 		mk("remover-done", Itoa(int(n)), B(err == nil))
-		return
-	}
-	mk("start")
-	lock, err := repository.VerifC12NewLock(ctx, repo, p.excl)
-	if err != nil {
-		if repository.IsAlreadyLocked(err) {
-			mk("fail-locked")
-		} else {
-			mk("fail-err", HexS(err.Error()))
+		if p.kind == "remover" {
+			return
 		}
-		return
 	}
-	mk("acq", lock.ID()[:8])
+	var lock *repository.VerifC12Lock
+	if p.kind == "expired" {
+		// the forced refresh of tryRefreshStaleLock (the backend would be frozen meanwhile)
+		lock = p.aged
+		mk("sr-start")
+		if err := lock.RefreshStale(ctx); err != nil {
+			mk("sr-fail", B(repository.VerifC12IsRemovedLock(err)), HexS(err.Error()))
+			// the context is cancelled, refreshLocks exits and unlocks
+			mk("lost")
+			uerr := lock.Unlock(ctx)
+			mk("unlocked-after-loss", B(uerr == nil))
+			return
+		}
+		mk("sr-ok", lock.ID()[:8])
+	} else {
+		mk("start")
+		var err error
+		lock, err = repository.VerifC12NewLock(ctx, repo, p.excl)
+		if err != nil {
+			if repository.IsAlreadyLocked(err) {
+				mk("fail-locked")
+			} else {
+				mk("fail-err", HexS(err.Error()))
+			}
+			return
+		}
+		mk("acq", lock.ID()[:8])
+	}
 	for i := 0; i < p.refreshes; i++ {
 		if err := lock.Refresh(ctx); err != nil {
 			mk("refresh-err", HexS(err.Error()))
@@ -245,7 +266,7 @@ func c12RunProc(ctl *c12Ctl, p *c12Proc, repo *repository.Repository) {
 		return
 	}
 	mk("rel")
-	err = lock.Unlock(ctx)
+	err := lock.Unlock(ctx)
 	mk("unlocked", B(err == nil))
 }
 
@@ -263,9 +284,22 @@ func streamC12(h *H) {
 		procs := make([]*c12Proc, nproc)
 		repos := make([]*repository.Repository, nproc)
 		haveRemover := false
+		// one case in four is about the forced refresh of an expired lock racing with `unlock` + a new lock
+		expiredCase := h.Intn(4) == 0
 		for i := range procs {
 			p := &c12Proc{id: i, kind: "locker", done: make(chan struct{})}
-			if i >= 1 && !haveRemover && h.Intn(5) == 0 {
+			if expiredCase && i == 0 {
+				p.kind = "expired"
+				// 31..40 min: stale for everybody; 23..29 min: expired for its holder only
+				if h.Intn(4) == 0 {
+					p.age = time.Duration(23+h.Intn(7)) * time.Minute
+				} else {
+					p.age = time.Duration(31+h.Intn(10)) * time.Minute
+				}
+			} else if expiredCase && i == 1 {
+				p.kind = "remlocker"
+				haveRemover = true
+			} else if i >= 1 && !haveRemover && h.Intn(5) == 0 {
 				p.kind = "remover"
 				haveRemover = true
 			}
@@ -275,13 +309,27 @@ func streamC12(h *H) {
 			if h.Intn(6) == 0 {
 				p.end = "crash"
 			}
+			if p.kind == "expired" {
+				p.excl = p.excl && h.Intn(2) == 0
+			}
 			procs[i] = p
 			repos[i] = repository.TestOpenBackend(TB, &c12Backend{Backend: base, proc: i, ctl: ctl})
+			if p.kind == "expired" {
+				l, err := repository.VerifC12AgedLock(repos[i], p.age, p.excl)
+				if err != nil {
+					panic(err)
+				}
+				p.aged = l
+			}
 		}
 		h.Case("sched")
 		h.Rec("nproc", Itoa(nproc))
 		for _, p := range procs {
-			h.Rec("proc", Itoa(p.id), p.kind, B(p.excl), Itoa(p.refreshes), p.end)
+			if p.kind == "expired" {
+				h.Rec("proc", Itoa(p.id), p.kind, B(p.excl), Itoa(p.refreshes), p.end, I64(p.age.Milliseconds()), p.aged.ID()[:8])
+			} else {
+				h.Rec("proc", Itoa(p.id), p.kind, B(p.excl), Itoa(p.refreshes), p.end)
+			}
 		}
 		// lock files left behind by processes that are gone (written directly, before scheduling starts)
 		nghost := []int{0, 0, 0, 1, 1, 2}[h.Intn(6)]
